@@ -199,7 +199,8 @@ extern "C" {
 }
 
 unsafe fn real_getenv(name: &[u8]) -> *mut std::os::raw::c_char {
-    let mut p = environ;
+    let real = REAL_ENVIRON.load(std::sync::atomic::Ordering::SeqCst);
+    let mut p = if real != 0 { real as *const *const std::os::raw::c_char } else { environ };
     if p.is_null() {
         return std::ptr::null_mut();
     }
@@ -213,12 +214,66 @@ unsafe fn real_getenv(name: &[u8]) -> *mut std::os::raw::c_char {
     std::ptr::null_mut()
 }
 
-static ENV_ONE: &[u8] = b"1\0";
-static ENV_EMPTY: &[u8] = b"\0";
+/// What a simulated caller thread finds in the process environment under `name`: a function of
+/// (name, environment seed, environment epoch). `None` = unset. The same function feeds `getenv`
+/// and the `environ` block (below), so the two views agree.
+fn sim_env_value(name: &str, env_seed: u64, env_epoch: u64) -> Option<&'static str> {
+    let h = crate::rng::mix(&[crate::rng::hash_str(name), env_seed, env_epoch]);
+    let pick = |choices: &[Option<&'static str>]| choices[(h % choices.len() as u64) as usize];
+    let upper = name.to_ascii_uppercase();
+    if upper == "TZ" {
+        // POSIX-style zones need no zone file
+        pick(&[None, Some("UTC0"), Some("JST-9"), Some("PST8PDT"), Some("<+1245>-12:45")])
+    } else if upper == "LANG" || upper.starts_with("LC_") || upper == "LANGUAGE" {
+        pick(&[None, Some("C"), Some("en_US.UTF-8"), Some("de_DE.UTF-8"), Some("tr_TR.UTF-8")])
+    } else if upper == "HOME" || upper == "TMPDIR" || upper == "PWD" || upper.ends_with("DIR") || upper.ends_with("PATH") || upper.ends_with("PREFIX") {
+        pick(&[None, Some("/sim/home/user"), Some("/tmp"), Some("/scratch/job-17/")])
+    } else if upper == "USER" || upper == "LOGNAME" || upper.ends_with("USER") {
+        pick(&[None, Some("root"), Some("alice"), Some("svc-lipe")])
+    } else if upper.contains("THREAD") || upper.contains("JOBS") || upper == "COLUMNS" || upper.contains("SIZE") || upper.contains("LEVEL") || upper.contains("COUNT") {
+        pick(&[None, None, Some("1"), Some("4"), Some("80"), Some("0")])
+    } else {
+        pick(&[None, None, Some("1"), Some("")])
+    }
+}
+
+/// Names a simulated `environ` block offers (besides whatever `getenv` is asked for by name): the
+/// usual suspects plus every word of the library's own string literals that looks like the name
+/// of an environment variable (a prefix such as `LIPE_` is completed).
+fn sim_env_names() -> Vec<String> {
+    let mut names: Vec<String> = [
+        "TZ", "LANG", "LC_ALL", "LC_TIME", "LC_COLLATE", "HOME", "USER", "LOGNAME", "TMPDIR", "PATH", "PWD", "SHELL", "TERM", "COLUMNS", "NO_COLOR", "CLICOLOR_FORCE",
+        "POSIXLY_CORRECT", "BLOCK_SIZE", "BLOCKSIZE", "FIND_BLOCK_SIZE", "LIPE_FIND_THREADS", "LIPE_FIND_OPTIONS", "LIPE_FIND_DEBUG", "LIPE_THREADS", "LIPE_DEBUG",
+        "LIPE_OUTPUT_DIR", "LFIND_OPTS", "LFIND_THREADS", "OMP_NUM_THREADS", "SLURM_JOB_ID", "HOSTNAME", "SOURCE_DATE_EPOCH",
+    ]
+    .iter()
+    .map(|s| s.to_string())
+    .collect();
+    for w in crate::gen::dictionary() {
+        let looks = w.len() >= 3 && w.chars().all(|c| c.is_ascii_uppercase() || c.is_ascii_digit() || c == '_') && w.chars().any(|c| c.is_ascii_uppercase());
+        if looks {
+            if w.ends_with('_') {
+                for suffix in ["THREADS", "OPTIONS", "DEBUG", "DIR"] {
+                    names.push(format!("{w}{suffix}"));
+                }
+            } else {
+                names.push(w.clone());
+            }
+        }
+    }
+    names.sort();
+    names.dedup();
+    names
+}
+
+thread_local! {
+    /// value strings handed out by `getenv` to this thread stay alive until the thread ends
+    static ENV_ANSWERS: std::cell::RefCell<Vec<std::ffi::CString>> = const { std::cell::RefCell::new(Vec::new()) };
+}
 
 /// Third seam: the process environment. For simulated caller threads every variable the code
-/// under test asks for is unset, set to "1" or set to the empty string, decided by the simulator
-/// per (name, environment epoch); `RUST_*` names (std's own knobs) are passed through.
+/// under test asks for has a value (or none) decided by the simulator per (name, environment
+/// epoch); `RUST_*` names (std's own knobs) are passed through.
 #[no_mangle]
 pub unsafe extern "C" fn getenv(name: *const std::os::raw::c_char) -> *mut std::os::raw::c_char {
     if name.is_null() {
@@ -230,15 +285,80 @@ pub unsafe extern "C" fn getenv(name: *const std::os::raw::c_char) -> *mut std::
         let mut st = (*env).lock().unwrap_or_else(|e| e.into_inner());
         st.env_reads_total += 1;
         let text = String::from_utf8_lossy(bytes).to_string();
-        let h = crate::rng::mix(&[crate::rng::hash_str(&text), st.env_seed, st.env_epoch]) % 4;
+        let v = sim_env_value(&text, st.env_seed, st.env_epoch);
         st.env_names.insert(text);
-        return match h {
-            0 | 1 => std::ptr::null_mut(),
-            2 => ENV_ONE.as_ptr() as *mut std::os::raw::c_char,
-            _ => ENV_EMPTY.as_ptr() as *mut std::os::raw::c_char,
+        return match v {
+            None => std::ptr::null_mut(),
+            Some(val) => ENV_ANSWERS.with(|a| {
+                let c = std::ffi::CString::new(val).unwrap_or_default();
+                let p = c.as_ptr() as *mut std::os::raw::c_char;
+                a.borrow_mut().push(c);
+                p
+            }),
         };
     }
     real_getenv(bytes)
+}
+
+/// The `environ` block itself (behind `std::env::vars()`, and behind glibc's *internal* lookups
+/// such as `tzset` reading `TZ`, which do not go through the interposable `getenv`). It is one
+/// pointer per process, so it is swapped for the duration of one operation of one simulated
+/// caller thread — the simulator releases one operation at a time — and restored afterwards.
+pub struct EnvironGuard {
+    saved: *const *const std::os::raw::c_char,
+    _strings: Vec<std::ffi::CString>,
+    _block: Vec<*const std::os::raw::c_char>,
+}
+
+static REAL_ENVIRON: std::sync::atomic::AtomicUsize = std::sync::atomic::AtomicUsize::new(0);
+
+pub fn swap_environ(env: &Env) -> EnvironGuard {
+    extern "C" {
+        static mut environ: *const *const std::os::raw::c_char;
+    }
+    let (seed, epoch) = {
+        let st = env.lock().unwrap_or_else(|e| e.into_inner());
+        (st.env_seed, st.env_epoch)
+    };
+    let mut strings = vec![];
+    for n in sim_env_names() {
+        if let Some(v) = sim_env_value(&n, seed, epoch) {
+            if let Ok(c) = std::ffi::CString::new(format!("{n}={v}")) {
+                strings.push(c);
+            }
+        }
+    }
+    unsafe {
+        // std's own knobs stay what they are
+        let mut p = environ;
+        while !p.is_null() && !(*p).is_null() {
+            let entry = std::ffi::CStr::from_ptr(*p);
+            if entry.to_bytes().starts_with(b"RUST_") {
+                strings.push(entry.to_owned());
+            }
+            p = p.add(1);
+        }
+    }
+    let mut block: Vec<*const std::os::raw::c_char> = strings.iter().map(|c| c.as_ptr()).collect();
+    block.push(std::ptr::null());
+    unsafe {
+        let saved = environ;
+        REAL_ENVIRON.store(saved as usize, std::sync::atomic::Ordering::SeqCst);
+        environ = block.as_ptr();
+        EnvironGuard { saved, _strings: strings, _block: block }
+    }
+}
+
+impl Drop for EnvironGuard {
+    fn drop(&mut self) {
+        extern "C" {
+            static mut environ: *const *const std::os::raw::c_char;
+        }
+        unsafe {
+            environ = self.saved;
+        }
+        REAL_ENVIRON.store(0, std::sync::atomic::Ordering::SeqCst);
+    }
 }
 
 extern "C" {
